@@ -46,7 +46,8 @@ func cmdSigs(args []string) int {
 		procs = []int{1, 2, 3, 4, 5, 8, 16, 128}
 		nSingles = 1500
 	}
-	fx, err := NewFixture(ctx, nW, perW, false)
+	// two more accounts whose names are a regular account's name with a trailing / leading blank
+	fx, err := NewFixture(ctx, nW, perW, false, "Account 0 ", " Account 1")
 	if err != nil {
 		fmt.Fprintln(os.Stderr, "fixture:", err)
 		return 2
@@ -176,7 +177,8 @@ func cmdSigs(args []string) int {
 			if cf.tier != "thorough" && n > 8 && p != 1 && p != 4 && p != 128 {
 				continue
 			}
-			inst, err := run.newInstance(admin)
+			// every other batch instance with the services logging at trace level (the output is discarded)
+			inst, err := NewInstance(ctx, fx, InstanceOpts{AdminIPs: admin, Perms: permsFromTbl(stdPermTbl), Verbose: p%2 == 0})
 			if err != nil {
 				return 2
 			}
